@@ -332,6 +332,11 @@ func (h *SimH) do(q *Req, c flamego.Context, rw http.ResponseWriter, r *http.Req
 				q.Note("namer=none")
 			}
 		}
+	case OpHTTPError:
+		if rw != nil {
+			attempt()
+			http.Error(rw, "denied "+q.Name, http.StatusForbidden)
+		}
 	case OpSetCL:
 		if rw != nil {
 			rw.Header().Set("Content-Length", "4096")
@@ -485,6 +490,9 @@ func (h *SimH) do(q *Req, c flamego.Context, rw http.ResponseWriter, r *http.Req
 		}
 	case OpRedirect:
 		if c != nil {
+			if !q.substituted {
+				q.ev(EvAttempt, h.HID, int(a.Op), "")
+			}
 			c.Redirect("/to/" + q.Name)
 		}
 	case OpStatus:
